@@ -43,6 +43,9 @@ Definition src_polygon_setters : list setter :=
 (* Lanelet (commonroad/scenario/lanelet.py sha1=6b97a2da41d114a0ff7e7758263bd850fe817918)
    attributes: 0 = _left_vertices, 1 = _center_vertices, 2 = _right_vertices
    derived:    0 = _distance <- {_center_vertices}, 1 = _inner_distance <- {_left_vertices, _right_vertices}, 2 = _polygon <- {_left_vertices, _right_vertices}
+   note: left_vertices: rebuild guarded by `self._left_vertices is not None and self._right_vertices is not None` (holds once __init__ has run)
+   note: center_vertices: rebuild guarded by `self._left_vertices is not None and self._right_vertices is not None` (holds once __init__ has run)
+   note: right_vertices: rebuild guarded by `self._left_vertices is not None and self._right_vertices is not None` (holds once __init__ has run)
 *)
 Definition src_lanelet_caches : list nat := [0; 1; 2].
 Definition src_lanelet_deps (k : nat) : list nat := match k with | 0 => [1] | 1 => [0; 2] | 2 => [0; 2] | _ => [] end.
